@@ -41,7 +41,8 @@ Bins == {<<>>, <<0, 255>>}
 Pids == {1, 65535}
 U32s == {<<0, 0, 0, 0>>, <<255, 255, 255, 255>>}
 Opt(S) == {<<>>} \cup {<<x>> : x \in S}
-Users == {<<>>, << <<<<107>>, <<118>>>> >>, << <<<<107>>, <<118>>>>, <<<<107>>, <<>>>> >>}    \* k=v ; k=v, k=""
+Users == {<<>>, << <<<<107>>, <<118>>>> >>, << <<<<107>>, <<118>>>>, <<<<107>>, <<>>>> >>,    \* k=v ; k=v, k=""
+          << <<<<107>>, <<118>>>>, <<<<107>>, <<118>>>> >>}                                 \* the same pair twice
 
 SampleValues(pr) ==
     CASE pr.ty = "bool" -> {TRUE, FALSE}
